@@ -145,6 +145,13 @@ example : Decimal.parse [45, 49, 46, 53, 48] = some ⟨true, 150, 2⟩ :=
   numeral_frac_accepted [cMinus] true [49] [53, 48] (Or.inr (Or.inr ⟨rfl, rfl⟩)) (by decide) (by decide)
     (by decide) (by decide) (by decide)
 
+/-- conversely, a string of at most 19 bytes that the engine accepts has that shape: one optional
+sign, at least one digit, optionally a dot followed by 1–19 digits, ASCII digits only (so `""`,
+`"1."`, `".5"`, `"1e3"`, `"+-1"`, non-ASCII digits are rejected). -/
+theorem numeral_short_shape (s : Str) (d : Dec) (hl : s.length ≤ 19) (h : Decimal.parse s = some d) :
+    NumeralShape s :=
+  parse_short_sound s d hl h
+
 /-! ## hash -/
 
 /-- structurally equal trees give the same hash input (the encoding is a function of the tree
